@@ -430,6 +430,8 @@ class Machine:
 
     def call_named(self, fn, args):
         last = fn.split("::")[-1]
+        if last in self.hooks:
+            return self.hooks[last](self, *args)
         if last in ("min", "max") and len(args) == 2 and all(isinstance(a, (int, float)) for a in args):
             return min(args) if last == "min" else max(args)
         if self.c is not None and fn in self.c.hir and not self.c.hir[fn].get("derived"):
